@@ -64,7 +64,7 @@ H("h_numbers::c01_bin_int_u5", ["C01", "C04"], "numbers::bin_int (+ from_utf8_un
 H("h_numbers::c01_zero_prefixable_int_u4", ["C01", "C04"], "numbers::zero_prefixable_int (+ from_utf8_unchecked)", U % 4, measured_s=43)
 H("h_numbers::c01_frac_u4", ["C01", "C04"], "numbers::frac (+ from_utf8_unchecked)", U % 4, measured_s=53)
 H("h_numbers::c01_exp_u4", ["C01", "C04"], "numbers::exp (+ from_utf8_unchecked)", U % 4, measured_s=60)
-H("h_numbers::c01_float_syntax_a4", ["C01", "C04"], "numbers::float_ (dec_int, exp, frac; + from_utf8_unchecked)", A % 4, measured_s=280, tier="thorough", rss_gb=24)
+H("h_numbers::c01_float_syntax_a4", ["C01", "C04"], "numbers::float_ (dec_int, exp, frac; + from_utf8_unchecked)", A % 4, measured_s=700, tier="thorough", rss_gb=24)
 for b, n in (("hex", "0x"), ("oct", "0o"), ("bin", "0b")):
     H(f"h_numbers::c02_integer_{b}_a5", ["C02", "C01", "C11", "C04"], f"numbers::integer ({b} arm: dispatch, {b}_int, replace, from_str_radix)",
       f"`{n}` + every ASCII string of <= 3 bytes (symbolic length)", tier="thorough", measured_s=700, models=("M1", "M2", "M7"), rss_gb=24)
